@@ -118,9 +118,12 @@ fn c15_sentence(rng: &mut Rng) -> RefSentence {
     let asize = rng.urange(2, 6);
     let alpha = text::alphabet(rng, asize, text::Flavor::Any);
     let mut chars: Vec<char> = vec![];
-    let target = match rng.below(5) {
-        0 => 1,
-        1 => 2,
+    let target = match rng.below(12) {
+        0 | 1 => 1,
+        2 | 3 => 2,
+        4 => rng.urange(41, 140),
+        5 => rng.urange(60, 70),
+        6 => *rng.pick(&[63usize, 64, 65, 127, 128, 129, 255, 256, 257, 300]),
         _ => rng.urange(3, 40),
     };
     while chars.len() < target {
@@ -311,17 +314,36 @@ pub fn run_c16s(ctx: &mut Ctx, from: u64, to: u64) {
     for k in from..to {
         ctx.begin_case(k);
         let mut rng = Rng::new(case_seed(ctx.seed, "C16s", k));
-        let mut s = text::hostile_string(&mut rng, 30);
+        let mut s = match rng.below(4) {
+            0 => {
+                // long printable-ASCII strings (URLs, timestamps, identifiers): all table keys in context
+                let n = rng.urange(20, 200);
+                (0..n).map(|_| char::from(rng.urange(0x20, 0x7e) as u8)).collect::<String>()
+            }
+            1 => {
+                let n = rng.urange(1, 80);
+                (0..n).map(|_| *rng.pick(&keys)).collect::<String>()
+            }
+            _ => text::hostile_string(&mut rng, 30),
+        };
         for _ in 0..rng.below(10) {
             s.push(*rng.pick(&keys));
+        }
+        if rng.chance(1, 4) {
+            // the normalised form itself (idempotence on strings)
+            s = norm::normalise(&s);
         }
         let r = guard(|| f.filter(s.as_str()));
         ctx.eval(1);
         match r {
             Ok(out) => {
                 let want = norm::normalise(&s);
+                let again = f.filter(out.as_str());
+                if again != out {
+                    ctx.violation("C16:normaliser_not_idempotent_on_string", J::obj(vec![("input", J::s(clip(&s, 120))), ("once", J::s(clip(&out, 120))), ("twice", J::s(clip(&again, 120)))]));
+                }
                 if out != want {
-                    ctx.violation("C16:normalised_string_differs_from_per_character_table", J::obj(vec![("input", J::s(clip(&s, 80))), ("expected", J::s(clip(&want, 80))), ("output", J::s(clip(&out, 80)))]));
+                    ctx.violation("C16:normalised_string_differs_from_per_character_table", J::obj(vec![("input", J::s(clip(&s, 240))), ("expected", J::s(clip(&want, 240))), ("output", J::s(clip(&out, 240)))]));
                 }
                 ctx.flag("strings_changed_by_normaliser", out != s);
             }
